@@ -46,3 +46,9 @@ C("C11",
   "Trusted: blake3/sha3 crates; the reference sponge and the constants copied at the pinned commit; absorption/padding conventions as documented per module (Jive: overwrite padding and Jive compression).",
   "differential monitor against reference hash implementations + input-separation monitor (overflow-checks build)",
   "DESIGN.md §5 C11")
+
+C("C10",
+  "Positive and negative monitors against a naive tree recomputed with the Hasher API: every non-empty subset of positions for trees of depth 1..4 (65,535 subsets at depth 4), every order of every subset at depth <= 3, sampled position sets (1..255 positions, adjacent/cousin/all-left/all-right patterns, shuffled orders) at depths 5..12, six hashers, serial and concurrent tree construction. Honest openings must verify, decompress to the naive paths, re-compress to themselves and survive the node wire format; ~40 mutation classes (each leaf/node replaced, vectors truncated/extended/moved, depth changes incl. >= 64, positions duplicated/permuted/out of range/added) must each return an error - acceptance or a panic is a violation.",
+  "Trusted: the naive tree and the Hasher implementations (C11). A mutant can only be accepted legitimately through a hash collision.",
+  "exhaustive (depth<=4) + sampled differential monitor with mutation-based negative oracle",
+  "DESIGN.md §5 C10")
